@@ -153,6 +153,11 @@ def _x(c):
             crp.diagline_dist()
         except Exception as ex:
             o["crp"]["lines_exc"] = type(ex).__name__
+        # the same two series on a level of 2^27 (time stamps, Kelvin-like offsets; exact in double precision):
+        # distances, hence the cross recurrence matrix, do not depend on a common translation
+        o["crp"]["CRfar"] = enc.ints(CrossRecurrencePlot(np.asarray(x, dtype=float) + 134217728.0,
+                                                         np.asarray(y, dtype=float) + 134217728.0,
+                                                         silence_level=3, **kwc).recurrence_matrix())
     except Exception as ex:
         o["crp"]["exc"] = type(ex).__name__
     try:
